@@ -20,47 +20,77 @@ theorem evalFactor_kind_change (es : EvalSpec) (fr : Frame) (d : FactorDecl) (dr
     simp only [hk, guardRecorded, hr]
     simp [hne]
 
+theorem dget_append {α} (k : String) (a b : List (String × α)) :
+    dget k (a ++ b) = match dget k a with | some v => some v | none => dget k b := by
+  induction a with
+  | nil => simp [dget]
+  | cons x r ih =>
+    obtain ⟨k', v⟩ := x
+    simp only [List.cons_append, dget]
+    split <;> simp_all
+
+theorem dget_snoc_ne {α} (k k' : String) (a : List (String × α)) (v : α) (h : k' ≠ k) (ha : dget k a = none) :
+    dget k (a ++ [(k', v)]) = none := by
+  rw [dget_append, ha]
+  simp [dget, h]
+
 /-- an error of one factor stops the loop, whatever comes after; earlier factors may only
-succeed or fail with the same class -/
+succeed or fail with the same class. The factor must actually be evaluated: its expression is not a
+key of the cache yet and no earlier factor of the list carries it. -/
 theorem evalPhase_error_at (es : EvalSpec) (fr : Frame) (e : Err) (d : FactorDecl)
     (hd : ∀ dr, evalFactor es fr d dr = .error e) :
     ∀ (pre post : List FactorDecl) (cache : Cache) (drop : List Nat),
+      dget d.expr cache = none → (∀ g ∈ pre, g.expr ≠ d.expr) →
       (∀ g ∈ pre, ∀ dr e', evalFactor es fr g dr = .error e' → e' = e) →
       evalPhase es fr (pre ++ d :: post) cache drop = .error e := by
   intro pre
   induction pre with
   | nil =>
-    intro post cache drop _
-    simp [evalPhase, hd]
+    intro post cache drop hc _ _
+    simp [evalPhase, hd, hc]
   | cons g pre ih =>
-    intro post cache drop hpre
+    intro post cache drop hc hne hpre
     simp only [List.cons_append, evalPhase]
-    cases hg : evalFactor es fr g drop with
-    | error e' =>
-      have := hpre g (by simp) drop e' hg
-      simp [this]
-    | ok p =>
-      obtain ⟨ev, drop'⟩ := p
+    cases hgc : dget g.expr cache with
+    | some v =>
       simp only
-      exact ih post _ _ (fun g' hg' => hpre g' (by simp [hg']))
+      exact ih post cache drop hc (fun g' hg' => hne g' (by simp [hg'])) (fun g' hg' => hpre g' (by simp [hg']))
+    | none =>
+      simp only
+      cases hg : evalFactor es fr g drop with
+      | error e' =>
+        have := hpre g (by simp) drop e' hg
+        simp [this]
+      | ok p =>
+        obtain ⟨ev, drop'⟩ := p
+        simp only
+        exact ih post _ _ (dget_snoc_ne _ _ _ _ (hne g (by simp)) hc)
+          (fun g' hg' => hne g' (by simp [hg'])) (fun g' hg' => hpre g' (by simp [hg']))
 
 theorem evalPhase_never_ok (es : EvalSpec) (fr : Frame) (e : Err) (d : FactorDecl)
     (hd : ∀ dr, evalFactor es fr d dr = .error e) :
     ∀ (pre post : List FactorDecl) (cache : Cache) (drop : List Nat),
+      dget d.expr cache = none → (∀ g ∈ pre, g.expr ≠ d.expr) →
       ∃ e', evalPhase es fr (pre ++ d :: post) cache drop = .error e' := by
   intro pre
   induction pre with
   | nil =>
-    intro post cache drop
-    exact ⟨e, by simp [evalPhase, hd]⟩
+    intro post cache drop hc _
+    exact ⟨e, by simp [evalPhase, hd, hc]⟩
   | cons g pre ih =>
-    intro post cache drop
+    intro post cache drop hc hne
     simp only [List.cons_append, evalPhase]
-    cases hg : evalFactor es fr g drop with
-    | error e' => exact ⟨e', rfl⟩
-    | ok p =>
-      obtain ⟨ev, drop'⟩ := p
-      exact ih post _ _
+    cases hgc : dget g.expr cache with
+    | some v =>
+      simp only
+      exact ih post cache drop hc (fun g' hg' => hne g' (by simp [hg']))
+    | none =>
+      simp only
+      cases hg : evalFactor es fr g drop with
+      | error e' => exact ⟨e', rfl⟩
+      | ok p =>
+        obtain ⟨ev, drop'⟩ := p
+        exact ih post _ _ (dget_snoc_ne _ _ _ _ (hne g (by simp)) hc) (fun g' hg' => hne g' (by simp [hg']))
 
 
 theorem dedupFactors_sub (l : List FactorDecl) : ∀ x ∈ dedupFactors l, x ∈ l := by
@@ -121,6 +151,51 @@ theorem mem_orderedFactors (specs : List Spec) (order : List String) (d : Factor
   rw [List.mem_filterMap]
   exact ⟨d.expr, ho, find_of_pairwise _ (dedupFactors_pairwise _) d hd⟩
 
+theorem pairwise_expr_inj (l : List FactorDecl) (hp : l.Pairwise (fun a b => a.expr ≠ b.expr))
+    (a b : FactorDecl) (ha : a ∈ l) (hb : b ∈ l) (h : a.expr = b.expr) : a = b := by
+  induction l with
+  | nil => simp at ha
+  | cons x r ih =>
+    rw [List.pairwise_cons] at hp
+    rcases List.mem_cons.mp ha with rfl | ha' <;> rcases List.mem_cons.mp hb with rfl | hb'
+    · rfl
+    · exact absurd h (hp.1 b hb')
+    · exact absurd h.symm (hp.1 a ha')
+    · exact ih hp.2 ha' hb'
+
+theorem orderedFactors_sub (specs : List Spec) (order : List String) :
+    ∀ g ∈ orderedFactors specs order, g ∈ pooledFactors specs := by
+  intro g hg
+  obtain ⟨e, _, hf⟩ := List.mem_filterMap.mp hg
+  exact List.mem_of_find?_eq_some hf
+
+/-- split a list at the FIRST element carrying the expression of `d` -/
+theorem split_first (l : List FactorDecl) (d : FactorDecl) (hd : d ∈ l)
+    (huniq : ∀ g ∈ l, g.expr = d.expr → g = d) :
+    ∃ pre post, l = pre ++ d :: post ∧ ∀ g ∈ pre, g.expr ≠ d.expr := by
+  induction l with
+  | nil => simp at hd
+  | cons x r ih =>
+    by_cases hx : x = d
+    · exact ⟨[], r, by simp [hx], by simp⟩
+    · have hdr : d ∈ r := by
+        rcases List.mem_cons.mp hd with h | h
+        · exact absurd h.symm hx
+        · exact h
+      obtain ⟨pre, post, hsplit, hpre⟩ := ih hdr (fun g hg => huniq g (by simp [hg]))
+      refine ⟨x :: pre, post, by simp [hsplit], ?_⟩
+      intro g hg
+      rcases List.mem_cons.mp hg with rfl | hg'
+      · exact fun h => hx (huniq g (by simp) h)
+      · exact hpre g hg'
+
+/-- the evaluation order splits at the first (and only) factor carrying the expression of `d` -/
+theorem orderedFactors_split (specs : List Spec) (order : List String) (d : FactorDecl)
+    (hd : d ∈ pooledFactors specs) (ho : d.expr ∈ order) :
+    ∃ pre post, orderedFactors specs order = pre ++ d :: post ∧ ∀ g ∈ pre, g.expr ≠ d.expr :=
+  split_first _ d (mem_orderedFactors specs order d hd ho)
+    (fun g hg h => pairwise_expr_inj _ (dedupFactors_pairwise _) g d (orderedFactors_sub specs order g hg) hd h)
+
 /-- a factor that occurs in any term (of any degree) of any part is in the pooled set -/
 theorem pooled_covers (specs : List Spec) (s : Spec) (t : List FactorDecl) (d : FactorDecl)
     (hs : s ∈ specs) (ht : t ∈ s.terms) (hd : d ∈ t) :
@@ -128,15 +203,6 @@ theorem pooled_covers (specs : List Spec) (s : Spec) (t : List FactorDecl) (d : 
   apply dedupFactors_covers
   rw [List.mem_flatMap]
   exact ⟨s, hs, List.mem_flatten.mpr ⟨t, ht, hd⟩⟩
-
-theorem dget_append {α} (k : String) (a b : List (String × α)) :
-    dget k (a ++ b) = match dget k a with | some v => some v | none => dget k b := by
-  induction a with
-  | nil => simp [dget]
-  | cons x r ih =>
-    obtain ⟨k', v⟩ := x
-    simp only [List.cons_append, dget]
-    split <;> simp_all
 
 def poolEnc (specs : List Spec) (acc : List (String × RecState)) : List (String × RecState) :=
   specs.foldl (fun acc t => dupdate acc t.encoderState) acc
@@ -367,9 +433,12 @@ theorem buildMatrix_runs (s : Spec) (fr : Frame) (drop : List Nat) (cache : Cach
     cases he : enforceAll (List.replicate (nRetained fr drop) (some 0)) gens with
     | error e => simp [he] at h
     | ok fins =>
-      simp only [he, Except.ok.injEq] at h
-      obtain ⟨runs, h1, h2, h3, h4, h5⟩ := gen_enf_runs s fr drop cache _ _ _ _ hg he
-      refine ⟨runs, h1, h2, ?_, ?_, ?_, ?_⟩ <;> subst h <;> simp [h3, h4, h5, List.flatMap_def, List.map_map, Function.comp_def]
+      simp only [he] at h
+      split at h
+      · simp at h
+      · simp only [Except.ok.injEq] at h
+        obtain ⟨runs, h1, h2, h3, h4, h5⟩ := gen_enf_runs s fr drop cache _ _ _ _ hg he
+        refine ⟨runs, h1, h2, ?_, ?_, ?_, ?_⟩ <;> subst h <;> simp [h3, h4, h5, List.flatMap_def, List.map_map, Function.comp_def]
 
 /-- a successful `buildAll` pairs every spec with its result -/
 theorem buildAll_zip (fr : Frame) (drop : List Nat) (cache : Cache) :
@@ -463,19 +532,18 @@ theorem mapE_map {α β γ} (f : α → Except Err β) (g : β → γ) (g' : α 
 
 /-! ### encoding one factor -/
 
-/-- the pinned levels of a factor: `spec.encoder_state.get(expr, [None, {}])[1].get("categories")` -/
+/-- the levels RECORDED for a factor: `spec.encoder_state.get(expr, [None, {}])[1].get("categories")` -/
 def pinnedOf (s : Spec) (expr : String) : Option (List Val) := (dget expr s.encoderState).bind (·.levels)
 
-theorem encodeFactor_pinned (s : Spec) (fr : Frame) (drop : List Nat) (ev : Evaled) (red : Bool)
-    (L : List Val) (hk : ev.kind = .categorical) (hp : pinnedOf s ev.decl.expr = some L) :
-    encodeFactor s fr drop ev red =
-      .ok (dummyColumns ev.decl.expr red L (dropRows drop ev.cells), hasUnseen L (dropRows drop ev.cells)) := by
-  unfold pinnedOf at hp
-  simp [encodeFactor, hk, hp, pinnedLevels]
+/-- without an explicit `levels=` argument the nominated levels are the recorded ones -/
+theorem nominatedLevels_recorded (s : Spec) (d : FactorDecl) (h : (callArgs d).2 = none) :
+    nominatedLevels s d = pinnedOf s d.expr := by
+  simp [nominatedLevels, h, pinnedOf]
 
-theorem dummyColumns_names (expr : String) (red : Bool) (L : List Val) (cells : List Cell) :
-    (dummyColumns expr red L cells).map (·.name) = (if red then L.drop 1 else L).map (levelName expr red) := by
-  simp [dummyColumns, List.map_map, Function.comp_def]
+/-- an explicit `levels=` argument overrides the record -/
+theorem nominatedLevels_explicit (s : Spec) (d : FactorDecl) (ls : List Val) (h : (callArgs d).2 = some ls) :
+    nominatedLevels s d = some ls := by
+  simp [nominatedLevels, h]
 
 theorem dummyColumns_mem (expr : String) (red : Bool) (L : List Val) (cells : List Cell) (c : EncCol) :
     c ∈ dummyColumns expr red L cells ↔
@@ -500,6 +568,143 @@ theorem indicator_unseen (L : List Val) (c : Cell) (hc : ∀ l ∈ L, c ≠ some
     indicator l c = some 0 := by
   simp [indicator, hc l hl]
 
+theorem matrixColsFrom_names (mk : String → String) (cellsOf : Nat → List (Option Rat)) :
+    ∀ (fields : List String) (j : Nat), (matrixColsFrom mk cellsOf j fields).map (·.name) = fields.map mk := by
+  intro fields
+  induction fields with
+  | nil => intro j; rfl
+  | cons f r ih => intro j; simp [matrixColsFrom, ih]
+
+def codedNames (expr : String) (c : Contr) (red : Bool) (L : List Val) : Option (List String) :=
+  match c with
+  | .default => some ((if red then L.drop 1 else L).map (levelName expr red))
+  | .treatment sas base =>
+    if shortCircuit L red then some []
+    else
+      match findBase sas base L with
+      | .error _ => none
+      | .ok i => some ((if red then L.eraseIdx i else L).map (fun l => fieldName c expr red l.render))
+  | _ =>
+    if shortCircuit L red then some []
+    else
+      match codingMatrix c L red with
+      | .error _ => none
+      | .ok M =>
+        if M.length ≠ L.length then none
+        else
+          match codingFields c L red with
+          | .error _ => none
+          | .ok fields => some (fields.map (fieldName c expr red))
+
+theorem dummyColumns_names (expr : String) (red : Bool) (L : List Val) (cells : List Cell) :
+    (dummyColumns expr red L cells).map (·.name) = (if red then L.drop 1 else L).map (levelName expr red) := by
+  simp [dummyColumns, List.map_map, Function.comp_def]
+
+/-- the generic (matrix) branch of `codedColumns` and of `codedNames`, for the contrasts that take it -/
+def IsMatrixCoded : Contr → Prop
+  | .default => False
+  | .treatment _ _ => False
+  | _ => True
+
+theorem codedColumns_matrix (expr : String) (c : Contr) (hc : IsMatrixCoded c) (red : Bool) (L : List Val)
+    (cells : List Cell) :
+    codedColumns expr c red L cells =
+      if shortCircuit L red then .ok []
+      else
+        match codingMatrix c L red with
+        | .error e => .error e
+        | .ok M =>
+          if M.length ≠ L.length then .error .valueError
+          else
+            match codingFields c L red with
+            | .error e => .error e
+            | .ok fields =>
+              .ok (matrixColsFrom (fieldName c expr red) (fun j => cells.map (codedCell L M j)) 0 fields) := by
+  cases c <;> first | exact False.elim hc | rfl
+
+theorem codedNames_matrix (expr : String) (c : Contr) (hc : IsMatrixCoded c) (red : Bool) (L : List Val) :
+    codedNames expr c red L =
+      if shortCircuit L red then some []
+      else
+        match codingMatrix c L red with
+        | .error _ => none
+        | .ok M =>
+          if M.length ≠ L.length then none
+          else
+            match codingFields c L red with
+            | .error _ => none
+            | .ok fields => some (fields.map (fieldName c expr red)) := by
+  cases c <;> first | exact False.elim hc | rfl
+
+theorem isMatrixCoded_or (c : Contr) : c = .default ∨ (∃ sas base, c = .treatment sas base) ∨ IsMatrixCoded c := by
+  cases c <;> simp [IsMatrixCoded]
+
+theorem codedColumns_names (expr : String) (c : Contr) (red : Bool) (L : List Val) (cells : List Cell)
+    (cols : List EncCol) (h : codedColumns expr c red L cells = .ok cols) :
+    codedNames expr c red L = some (cols.map (·.name)) := by
+  rcases isMatrixCoded_or c with rfl | ⟨sas, base, rfl⟩ | hc
+  · simp only [codedColumns, Except.ok.injEq] at h
+    simp [codedNames, ← h, dummyColumns_names]
+  · simp only [codedColumns] at h
+    simp only [codedNames]
+    by_cases hsc : shortCircuit L red = true
+    · simp only [hsc, if_true, Except.ok.injEq] at h
+      simp [hsc, ← h]
+    · simp only [hsc] at h ⊢
+      cases hb : findBase sas base L with
+      | error e => simp [hb] at h
+      | ok i =>
+        simp only [hb, Bool.false_eq_true, if_false, Except.ok.injEq] at h
+        simp [← h, List.map_map, Function.comp_def]
+  · rw [codedColumns_matrix expr c hc] at h
+    rw [codedNames_matrix expr c hc]
+    by_cases hsc : shortCircuit L red = true
+    · simp only [hsc, if_true, Except.ok.injEq] at h
+      simp [hsc, ← h]
+    · simp only [hsc] at h ⊢
+      cases hM : codingMatrix c L red with
+      | error e => simp [hM] at h
+      | ok M =>
+        simp only [hM, Bool.false_eq_true, if_false] at h ⊢
+        by_cases hlen : M.length = L.length
+        · simp only [hlen, ne_eq, not_true_eq_false, if_false] at h ⊢
+          cases hf : codingFields c L red with
+          | error e => simp [hf] at h
+          | ok fields =>
+            simp only [hf, Except.ok.injEq] at h
+            simp [← h, matrixColsFrom_names]
+        · simp [hlen] at h
+
+theorem codedColumns_total (expr : String) (c : Contr) (red : Bool) (L : List Val) (cells : List Cell)
+    (ns : List String) (h : codedNames expr c red L = some ns) :
+    ∃ cols, codedColumns expr c red L cells = .ok cols := by
+  rcases isMatrixCoded_or c with rfl | ⟨sas, base, rfl⟩ | hc
+  · exact ⟨_, rfl⟩
+  · simp only [codedNames] at h
+    simp only [codedColumns]
+    by_cases hsc : shortCircuit L red = true
+    · exact ⟨[], by simp [hsc]⟩
+    · simp only [hsc] at h ⊢
+      cases hb : findBase sas base L with
+      | error e => simp [hb] at h
+      | ok i => exact ⟨_, by simp only [Bool.false_eq_true, if_false]; rfl⟩
+  · rw [codedNames_matrix expr c hc] at h
+    rw [codedColumns_matrix expr c hc]
+    by_cases hsc : shortCircuit L red = true
+    · exact ⟨[], by simp [hsc]⟩
+    · simp only [hsc] at h ⊢
+      cases hM : codingMatrix c L red with
+      | error e => simp [hM] at h
+      | ok M =>
+        simp only [hM, Bool.false_eq_true, if_false] at h ⊢
+        by_cases hlen : M.length = L.length
+        · simp only [hlen, ne_eq, not_true_eq_false, if_false] at h ⊢
+          cases hf : codingFields c L red with
+          | error e => simp [hf] at h
+          | ok fields => exact ⟨_, rfl⟩
+        · simp [hlen] at h
+
+
 theorem hasUnseen_iff (L : List Val) (cells : List Cell) :
     hasUnseen L cells = true ↔ ∃ c ∈ cells, c = none ∨ ∃ v, c = some v ∧ v ∉ L := by
   simp only [hasUnseen, List.any_eq_true]
@@ -515,48 +720,113 @@ theorem hasUnseen_iff (L : List Val) (cells : List Cell) :
     · rfl
     · simpa using hv
 
-/-- the condition under which encoding a factor issues `DataMismatchWarning` -/
+/-- encoding a categorical factor, step by step -/
+theorem encodeFactor_cat_ok (s : Spec) (fr : Frame) (drop : List Nat) (ev : Evaled) (red : Bool)
+    (cols : List EncCol) (w : Bool) (hk : ev.kind = .categorical)
+    (h : encodeFactor s fr drop ev red = .ok (cols, w)) :
+    contrInit (callArgs ev.decl).1 = .ok () ∧
+    ∃ L, pinnedLevels (nominatedLevels s ev.decl) ev.cats (dropRows drop ev.cells) = .ok (L, w) ∧
+      encoderShortCircuitFails s.output ev.decl.via L red = false ∧
+      codedColumns ev.decl.expr (callArgs ev.decl).1 red L (dropRows drop ev.cells) = .ok cols := by
+  simp only [encodeFactor, hk] at h
+  cases hi : contrInit (callArgs ev.decl).1 with
+  | error e => simp [hi] at h
+  | ok u =>
+    simp only [hi] at h
+    cases hp : pinnedLevels (nominatedLevels s ev.decl) ev.cats (dropRows drop ev.cells) with
+    | error e => simp [hp] at h
+    | ok lw =>
+      obtain ⟨L, w'⟩ := lw
+      simp only [hp] at h
+      cases hsc : encoderShortCircuitFails s.output ev.decl.via L red with
+      | true => simp [hsc] at h
+      | false =>
+        simp only [hsc, Bool.false_eq_true, if_false] at h
+        cases hc : codedColumns ev.decl.expr (callArgs ev.decl).1 red L (dropRows drop ev.cells) with
+        | error e => simp [hc] at h
+        | ok cols' =>
+          simp only [hc, Except.ok.injEq, Prod.mk.injEq] at h
+          obtain ⟨rfl, rfl⟩ := h
+          exact ⟨rfl, L, rfl, hsc, hc⟩
+
+theorem pinnedLevels_some (L : List Val) (cats : Option (List Val)) (cells : List Cell) (L' : List Val) (w : Bool)
+    (h : pinnedLevels (some L) cats cells = .ok (L', w)) :
+    hasDupVal L = false ∧ L' = L ∧ w = hasUnseen L cells := by
+  simp only [pinnedLevels] at h
+  cases hd : hasDupVal L with
+  | true => simp [hd] at h
+  | false =>
+    simp only [hd, Bool.false_eq_true, if_false, Except.ok.injEq, Prod.mk.injEq] at h
+    exact ⟨rfl, h.1.symm, h.2.symm⟩
+
+theorem pinnedLevels_none (cats : Option (List Val)) (cells : List Cell) (L' : List Val) (w : Bool)
+    (h : pinnedLevels none cats cells = .ok (L', w)) : w = false := by
+  simp only [pinnedLevels, Except.ok.injEq, Prod.mk.injEq] at h
+  exact h.2.symm
+
 def FactorWarns (s : Spec) (drop : List Nat) (ev : Evaled) : Prop :=
-  ev.kind = .categorical ∧ ∃ L, pinnedOf s ev.decl.expr = some L ∧
+  ev.kind = .categorical ∧ ∃ L, nominatedLevels s ev.decl = some L ∧
     ∃ c ∈ dropRows drop ev.cells, c = none ∨ ∃ v, c = some v ∧ v ∉ L
 
 theorem encodeFactor_warn (s : Spec) (fr : Frame) (drop : List Nat) (ev : Evaled) (red : Bool)
     (cols : List EncCol) (w : Bool) (h : encodeFactor s fr drop ev red = .ok (cols, w)) :
     w = true ↔ FactorWarns s drop ev := by
-  unfold encodeFactor at h
   cases hk : ev.kind with
   | categorical =>
-    simp only [hk] at h
-    cases hp : (dget ev.decl.expr s.encoderState).bind (·.levels) with
+    obtain ⟨_, L, hp, _, _⟩ := encodeFactor_cat_ok s fr drop ev red cols w hk h
+    cases hn : nominatedLevels s ev.decl with
     | none =>
-      simp only [hp, pinnedLevels, Except.ok.injEq, Prod.mk.injEq] at h
+      rw [hn] at hp
+      have := pinnedLevels_none _ _ _ _ hp
       constructor
-      · intro hw; rw [← h.2] at hw; simp at hw
-      · rintro ⟨_, L, hL, _⟩; simp [pinnedOf, hp] at hL
-    | some L =>
-      simp only [hp, pinnedLevels, Except.ok.injEq, Prod.mk.injEq] at h
-      rw [← h.2, hasUnseen_iff]
+      · intro hw; rw [this] at hw; simp at hw
+      · rintro ⟨_, L', hL', _⟩; simp [hn] at hL'
+    | some L0 =>
+      rw [hn] at hp
+      obtain ⟨_, _, hw⟩ := pinnedLevels_some _ _ _ _ _ hp
+      rw [hw, hasUnseen_iff]
       constructor
-      · intro hx; exact ⟨hk, L, by simp [pinnedOf, hp], hx⟩
+      · intro hx; exact ⟨hk, L0, hn, hx⟩
       · rintro ⟨_, L', hL', hx⟩
-        simp only [pinnedOf, hp, Option.some.injEq] at hL'
+        simp only [hn, Option.some.injEq] at hL'
         subst hL'; exact hx
   | numerical =>
-    simp only [hk] at h
-    split at h
-    · simp at h
-    · simp only [Except.ok.injEq, Prod.mk.injEq] at h
+    simp only [encodeFactor, hk] at h
+    cases hm : mapE numCell (dropRows drop ev.cells) with
+    | error e => simp [hm] at h
+    | ok vs =>
+      simp only [hm, Except.ok.injEq, Prod.mk.injEq] at h
       constructor
       · intro hw; rw [← h.2] at hw; simp at hw
       · rintro ⟨hc, _⟩; simp [hk] at hc
   | constant =>
-    simp only [hk] at h
-    split at h
-    · simp only [Except.ok.injEq, Prod.mk.injEq] at h
-      constructor
-      · intro hw; rw [← h.2] at hw; simp at hw
-      · rintro ⟨hc, _⟩; simp [hk] at hc
-    · simp at h
+    simp only [encodeFactor, hk] at h
+    constructor
+    · intro hw
+      split at h
+      · simp only [Except.ok.injEq, Prod.mk.injEq] at h; rw [← h.2] at hw; simp at hw
+      · simp at h
+    · rintro ⟨hc, _⟩; simp [hk] at hc
+
+theorem encodeFactor_cat (s : Spec) (fr : Frame) (drop : List Nat) (ev : Evaled) (red : Bool)
+    (L : List Val) (hk : ev.kind = .categorical) (hp : nominatedLevels s ev.decl = some L)
+    (hnd : hasDupVal L = false) (hinit : contrInit (callArgs ev.decl).1 = .ok ())
+    (hsc : encoderShortCircuitFails s.output ev.decl.via L red = false) :
+    encodeFactor s fr drop ev red =
+      match codedColumns ev.decl.expr (callArgs ev.decl).1 red L (dropRows drop ev.cells) with
+      | .error e => .error e
+      | .ok cols => .ok (cols, hasUnseen L (dropRows drop ev.cells)) := by
+  simp only [encodeFactor, hk, hinit, hp, pinnedLevels, hnd, hsc, Bool.false_eq_true, if_false]
+  rfl
+
+theorem encodeFactor_pinned (s : Spec) (fr : Frame) (drop : List Nat) (ev : Evaled) (red : Bool)
+    (L : List Val) (hk : ev.kind = .categorical) (hp : nominatedLevels s ev.decl = some L)
+    (hnd : hasDupVal L = false) (hc : (callArgs ev.decl).1 = .default)
+    (hsc : encoderShortCircuitFails s.output ev.decl.via L red = false) :
+    encodeFactor s fr drop ev red =
+      .ok (dummyColumns ev.decl.expr red L (dropRows drop ev.cells), hasUnseen L (dropRows drop ev.cells)) := by
+  rw [encodeFactor_cat s fr drop ev red L hk hp hnd (by rw [hc]; rfl) hsc, hc]
+  rfl
 
 
 /-! ### the warning flag of a build -/
@@ -757,34 +1027,36 @@ theorem evalPhase_inv (es : EvalSpec) (fr : Frame) :
       evalPhase es fr fs cache0 drop0 = .ok (cache, drop) →
       (∀ p ∈ cache0, EvalOk es fr drop0 p.1 p.2) →
       (∀ x ∈ drop0, x ∈ drop) ∧ (∀ p ∈ cache, EvalOk es fr drop p.1 p.2) ∧
-      (∀ d ∈ fs, ∃ ev, (d.expr, ev) ∈ cache ∧ ev.decl = d) ∧ (∀ p ∈ cache0, p ∈ cache) := by
+      (∀ p ∈ cache0, p ∈ cache) := by
   intro fs
   induction fs with
   | nil =>
     intro cache0 cache drop0 drop h h0
     simp only [evalPhase, Except.ok.injEq, Prod.mk.injEq] at h
     obtain ⟨rfl, rfl⟩ := h
-    exact ⟨fun _ h => h, h0, by simp, fun _ h => h⟩
+    exact ⟨fun _ h => h, h0, fun _ h => h⟩
   | cons d r ih =>
     intro cache0 cache drop0 drop h h0
     simp only [evalPhase] at h
-    cases hd : evalFactor es fr d drop0 with
-    | error e => simp [hd] at h
-    | ok q =>
-      obtain ⟨ev, drop1⟩ := q
-      simp only [hd] at h
-      obtain ⟨hsub, hok, hdecl⟩ := evalFactor_ok es fr d drop0 drop1 ev hd
-      have h1 : ∀ p ∈ cache0 ++ [(d.expr, ev)], EvalOk es fr drop1 p.1 p.2 := by
-        intro p hp
-        rcases List.mem_append.mp hp with hp | hp
-        · exact (h0 p hp).mono hsub
-        · simp only [List.mem_singleton] at hp; subst hp; exact hok
-      obtain ⟨a, b, c, e⟩ := ih _ _ _ _ h h1
-      refine ⟨fun x hx => a x (hsub x hx), b, ?_, fun p hp => e p (by simp [hp])⟩
-      intro d' hd'
-      rcases List.mem_cons.mp hd' with rfl | hm
-      · exact ⟨ev, e _ (by simp), hdecl⟩
-      · exact c d' hm
+    cases hc : dget d.expr cache0 with
+    | some v =>
+      simp only [hc] at h
+      exact ih _ _ _ _ h h0
+    | none =>
+      simp only [hc] at h
+      cases hd : evalFactor es fr d drop0 with
+      | error e => simp [hd] at h
+      | ok q =>
+        obtain ⟨ev, drop1⟩ := q
+        simp only [hd] at h
+        obtain ⟨hsub, hok, hdecl⟩ := evalFactor_ok es fr d drop0 drop1 ev hd
+        have h1 : ∀ p ∈ cache0 ++ [(d.expr, ev)], EvalOk es fr drop1 p.1 p.2 := by
+          intro p hp
+          rcases List.mem_append.mp hp with hp | hp
+          · exact (h0 p hp).mono hsub
+          · simp only [List.mem_singleton] at hp; subst hp; exact hok
+        obtain ⟨a, b, e⟩ := ih _ _ _ _ h h1
+        exact ⟨fun x hx => a x (hsub x hx), b, fun p hp => e p (by simp [hp])⟩
 
 theorem dget_mem {α} (k : String) (l : List (String × α)) (v : α) (h : dget k l = some v) : (k, v) ∈ l := by
   induction l with
@@ -824,33 +1096,37 @@ theorem dropAux_no_null (drop : List Nat) :
 /-! ### generated column names as a function of the spec and the factor kinds -/
 
 /-- names of the encoded columns of a factor; `none` when they depend on the data (a categorical
-factor without pinned levels) -/
-def encNames (s : Spec) (expr : String) (k : Kind) (red : Bool) : Option (List String) :=
+factor without nominated levels) or the encoding fails -/
+def encNames (s : Spec) (d : FactorDecl) (k : Kind) (red : Bool) : Option (List String) :=
   match k with
-  | .categorical => (pinnedOf s expr).map (fun L => (if red then L.drop 1 else L).map (levelName expr red))
-  | _ => some [expr]
+  | .categorical => (nominatedLevels s d).bind (codedNames d.expr (callArgs d).1 red)
+  | _ => some [d.expr]
 
 theorem encodeFactor_names (s : Spec) (fr : Frame) (drop : List Nat) (ev : Evaled) (red : Bool)
     (cols : List EncCol) (w : Bool) (ns : List String)
     (h : encodeFactor s fr drop ev red = .ok (cols, w))
-    (hn : encNames s ev.decl.expr ev.kind red = some ns) : cols.map (·.name) = ns := by
+    (hn : encNames s ev.decl ev.kind red = some ns) : cols.map (·.name) = ns := by
   unfold encNames at hn
   cases hk : ev.kind with
   | categorical =>
     simp only [hk] at hn
-    cases hp : pinnedOf s ev.decl.expr with
-    | none => simp [hp] at hn
-    | some L =>
-      simp only [hp, Option.map_some, Option.some.injEq] at hn
-      rw [encodeFactor_pinned s fr drop ev red L hk hp] at h
-      simp only [Except.ok.injEq, Prod.mk.injEq] at h
-      rw [← h.1, dummyColumns_names, hn]
+    obtain ⟨_, L, hp, _, hc⟩ := encodeFactor_cat_ok s fr drop ev red cols w hk h
+    cases hnl : nominatedLevels s ev.decl with
+    | none => simp [hnl] at hn
+    | some L0 =>
+      rw [hnl] at hp
+      obtain ⟨_, rfl, _⟩ := pinnedLevels_some _ _ _ _ _ hp
+      simp only [hnl, Option.bind_some] at hn
+      have := codedColumns_names _ _ _ _ _ _ hc
+      rw [hn] at this
+      exact (Option.some.inj this).symm
   | numerical =>
     simp only [hk, Option.some.injEq] at hn
     simp only [encodeFactor, hk] at h
-    split at h
-    · simp at h
-    · simp only [Except.ok.injEq, Prod.mk.injEq] at h
+    cases hm : mapE numCell (dropRows drop ev.cells) with
+    | error e => simp [hm] at h
+    | ok vs =>
+      simp only [hm, Except.ok.injEq, Prod.mk.injEq] at h
       rw [← h.1, ← hn]; rfl
   | constant =>
     simp only [hk, Option.some.injEq] at hn
@@ -860,6 +1136,7 @@ theorem encodeFactor_names (s : Spec) (fr : Frame) (drop : List Nat) (ev : Evale
       rw [← h.1, ← hn]; rfl
     · simp at h
 
+
 def allSome {α} : List (Option α) → Option (List α)
   | [] => some []
   | none :: _ => none
@@ -868,7 +1145,7 @@ def allSome {α} : List (Option α) → Option (List α)
 theorem encodeAll_names (s : Spec) (fr : Frame) (drop : List Nat) :
     ∀ (fs : List (Evaled × Bool)) (encs : List (List EncCol)) (w : Bool) (nss : List (List String)),
       encodeAll s fr drop fs = .ok (encs, w) →
-      allSome (fs.map (fun p => encNames s p.1.decl.expr p.1.kind p.2)) = some nss →
+      allSome (fs.map (fun p => encNames s p.1.decl p.1.kind p.2)) = some nss →
       encs.map (·.map (·.name)) = nss := by
   intro fs
   induction fs with
@@ -892,11 +1169,11 @@ theorem encodeAll_names (s : Spec) (fr : Frame) (drop : List Nat) :
         obtain ⟨rest, w2⟩ := q2
         simp only [h2, Except.ok.injEq, Prod.mk.injEq] at h
         simp only [List.map_cons] at hn
-        cases he : encNames s ev.decl.expr ev.kind red with
+        cases he : encNames s ev.decl ev.kind red with
         | none => simp [he, allSome] at hn
         | some ns =>
           simp only [he, allSome] at hn
-          cases hr : allSome (r.map (fun p => encNames s p.1.decl.expr p.1.kind p.2)) with
+          cases hr : allSome (r.map (fun p => encNames s p.1.decl p.1.kind p.2)) with
           | none => simp [hr] at hn
           | some nsr =>
             simp only [hr, Option.map_some, Option.some.injEq] at hn
@@ -948,29 +1225,30 @@ theorem productColumns_names (factors : List (List EncCol)) (scale : Rat) (cols 
     rfl
 
 
-/-- the kind each cached factor has on the new data -/
-def kindOf (cache : Cache) (e : String) : Option Kind := (dget e cache).map (·.kind)
+/-- what the reuse knows of each cached factor besides its cells: the kind it has on the new data
+and the factor itself (with the arguments of its `C(…)` call) -/
+def kindOf (cache : Cache) (e : String) : Option (Kind × FactorDecl) := (dget e cache).map (fun ev => (ev.kind, ev.decl))
 
 /-- `factor_cache` is keyed by the factor's own expression -/
 def Coherent (cache : Cache) : Prop := ∀ k ev, dget k cache = some ev → ev.decl.expr = k
 
-def sfNames (s : Spec) (ko : String → Option Kind) (sf : ScopedFactor) : Option (List String) :=
-  (ko sf.expr).bind (fun k => encNames s sf.expr k sf.reduced)
+def sfNames (s : Spec) (ko : String → Option (Kind × FactorDecl)) (sf : ScopedFactor) : Option (List String) :=
+  (ko sf.expr).bind (fun kd => encNames s kd.2 kd.1 sf.reduced)
 
 /-- names generated by one scoped term: a function of the spec and the factor kinds only -/
-def scopedNames (s : Spec) (ko : String → Option Kind) (st : ScopedTerm) : Option (List String) :=
+def scopedNames (s : Spec) (ko : String → Option (Kind × FactorDecl)) (st : ScopedTerm) : Option (List String) :=
   match dedupScoped st.factors with
   | [] => some ["Intercept"]
   | sfs => (allSome (sfs.map (sfNames s ko))).map (fun fn => dictKeys (rawNames fn))
 
 /-- names generated by one term of the structure (the keys of `scoped_cols`, in order) -/
-def termNames (s : Spec) (ko : String → Option Kind) (t : TermStruct) : Option (List String) :=
+def termNames (s : Spec) (ko : String → Option (Kind × FactorDecl)) (t : TermStruct) : Option (List String) :=
   (allSome (t.scopedTerms.map (scopedNames s ko))).map
     (fun nss => nss.foldl (fun acc ns => ns.foldl insName acc) [])
 
-theorem rehydrate_encNames (s : Spec) (cache : Cache) (hc : Coherent cache) (st : ScopedTerm)
+theorem rehydrate_encNames (s : Spec) (cache : Cache) (st : ScopedTerm)
     (fs : List (Evaled × Bool)) (h : rehydrate cache st = .ok fs) :
-    fs.map (fun p => encNames s p.1.decl.expr p.1.kind p.2)
+    fs.map (fun p => encNames s p.1.decl p.1.kind p.2)
       = (dedupScoped st.factors).map (sfNames s (kindOf cache)) := by
   unfold rehydrate at h
   refine mapE_map _ _ _ ?_ _ _ h
@@ -980,7 +1258,7 @@ theorem rehydrate_encNames (s : Spec) (cache : Cache) (hc : Coherent cache) (st 
   | some ev =>
     simp only [hd, Except.ok.injEq] at hp
     subst hp
-    simp [sfNames, kindOf, hd, hc _ _ hd]
+    simp [sfNames, kindOf, hd]
 
 theorem rehydrate_length (cache : Cache) (st : ScopedTerm) (fs : List (Evaled × Bool))
     (h : rehydrate cache st = .ok fs) : fs.length = (dedupScoped st.factors).length :=
@@ -992,7 +1270,7 @@ theorem scopedTermColumns_names (s : Spec) (fr : Frame) (drop : List Nat) (cache
     (h : scopedTermColumns s fr drop st.scale fs = .ok (cols, w))
     (hn : scopedNames s (kindOf cache) st = some ns) : cols.map (·.name) = ns := by
   have hlen := rehydrate_length cache st fs hr
-  have hmap := rehydrate_encNames s cache hc st fs hr
+  have hmap := rehydrate_encNames s cache st fs hr
   unfold scopedNames at hn
   unfold scopedTermColumns at h
   cases hfs : fs with
@@ -1481,7 +1759,7 @@ theorem replay_ok (specs : List Spec) (fr : Frame) (order : List String) (rs : L
 theorem evalPhase_cache (es : EvalSpec) (fr : Frame) (fs : List FactorDecl) (cache : Cache) (drop : List Nat)
     (h : evalPhase es fr fs [] [] = .ok (cache, drop)) :
     Coherent cache ∧ ∀ k ev, dget k cache = some ev → EvalOk es fr drop k ev := by
-  obtain ⟨_, hb, _, _⟩ := evalPhase_inv es fr fs [] cache [] drop h (by simp)
+  obtain ⟨_, hb, _⟩ := evalPhase_inv es fr fs [] cache [] drop h (by simp)
   have : ∀ k ev, dget k cache = some ev → EvalOk es fr drop k ev :=
     fun k ev hd => hb (k, ev) (dget_mem k cache ev hd)
   exact ⟨fun k ev hd => (this k ev hd).key, this⟩
@@ -1531,10 +1809,11 @@ theorem allSome_isSome {α} (l : List (Option α)) (h : ∀ x ∈ l, x.isSome) :
       | some v => simp
 
 /-- the generated names of a term are determined (no `none`) as soon as every scoped factor has a
-kind and every categorical one has pinned levels -/
-theorem termNames_isSome (s : Spec) (ko : String → Option Kind) (t : TermStruct)
-    (h : ∀ st ∈ t.scopedTerms, ∀ sf ∈ st.factors, ∃ k, ko sf.expr = some k ∧
-      (k = .categorical → (pinnedOf s sf.expr).isSome)) : (termNames s ko t).isSome := by
+kind and every categorical one has nominated levels against which its contrast can be coded -/
+theorem termNames_isSome (s : Spec) (ko : String → Option (Kind × FactorDecl)) (t : TermStruct)
+    (h : ∀ st ∈ t.scopedTerms, ∀ sf ∈ st.factors, ∃ k d, ko sf.expr = some (k, d) ∧
+      (k = .categorical → ∃ L, nominatedLevels s d = some L ∧
+        (codedNames d.expr (callArgs d).1 sf.reduced L).isSome)) : (termNames s ko t).isSome := by
   unfold termNames
   have : (allSome (t.scopedTerms.map (scopedNames s ko))).isSome := by
     apply allSome_isSome
@@ -1548,14 +1827,13 @@ theorem termNames_isSome (s : Spec) (ko : String → Option Kind) (t : TermStruc
         apply allSome_isSome
         intro y hy
         obtain ⟨sf, hsf, rfl⟩ := List.mem_map.mp hy
-        obtain ⟨k, hk, hp⟩ := h st hst sf ((dedupScoped_mem _ _).mp hsf)
+        obtain ⟨k, d, hk, hp⟩ := h st hst sf ((dedupScoped_mem _ _).mp hsf)
         simp only [sfNames, hk, Option.bind_some, encNames]
         cases k with
         | categorical =>
-          have := hp rfl
-          cases hq : pinnedOf s sf.expr with
-          | none => simp [hq] at this
-          | some L => simp
+          obtain ⟨L, hL, hcn⟩ := hp rfl
+          simp only [hL, Option.bind_some]
+          exact hcn
         | numerical => rfl
         | constant => rfl
       cases hr : allSome ((dedupScoped st.factors).map (sfNames s ko)) with
@@ -1674,6 +1952,12 @@ theorem applyStep_derived (specs specs' : List Spec) (st : Step) (h : applyStep 
     simp only [applyStep, Except.ok.injEq] at h
     subst h
     exact ⟨s', hs', DerivedFrom.refl _⟩
+  | subsetAll pss =>
+    simp only [applyStep] at h
+    split at h
+    · simp at h
+    · obtain ⟨sp, hsp, hsub⟩ := mapE_mem_out _ _ _ h s' hs'
+      exact ⟨sp.1, (List.of_mem_zip hsp).1, subsetSpec_derived sp.1 s' sp.2 hsub⟩
 
 theorem derive_derived (steps : List Step) : ∀ (specs specs' : List Spec), derive specs steps = .ok specs' →
     ∀ s' ∈ specs', ∃ s ∈ specs, DerivedFrom s s' := by
